@@ -14,7 +14,7 @@ EXPLANATION = (
     "value wiring. C13.6: compress_subject / uncompress_subject are replace_subject(self, f(subject(self))) (or self when nothing "
     "to do). Does not decide DEFLATE/CRC behaviour on corrupt data.")
 TRUSTED = ['Compressed::from_uncompressed_data stores its digest argument; digest_ref_opt/digest read it back', 'Compressed::uncompress checks a CRC-32']
-FLOORS = {'C13.1': 1, 'C13.2': 2, 'C13.3': 1, 'C13.4': 2, 'C13.6': 2}
+FLOORS = {'C13.1': 1, 'C13.2': 2, 'C13.3': 1, 'C13.4': 2, 'C13.6': 3}
 
 
 def check(ctx):
@@ -137,6 +137,7 @@ def check(ctx):
     else:
         ctx.lost('C13.2', 'case dispatch in uncompress')
     # ---- C13.6 subject variants
+    obscure.check_replace_subject(ctx, 'C13.6')
     def comp_subject(fname):
         def pred(v):
             if v == P1:
